@@ -10,7 +10,7 @@ for d in "$@"; do
   git apply $d/patch.diff
   all=$(/verif/bin/rbverify -all 2>&1)
   git checkout -q -- . ; git clean -fdq
-  f=$(echo "$all" | grep "  FINDING" | grep -v "V2|(\*roaring.bitmapContainer).validate|rejects cardinality == 4096\|PC1|(\*roaring64.BSI).MarshalBinary")
+  f=$(echo "$all" | grep "  FINDING" | grep -v "V2|(\*roaring.bitmapContainer).validate|rejects cardinality == 4096\|PC1|(\*roaring64.BSI).MarshalBinary\|L8|(\*roaring.roaringArray).readFrom|run list taken from the input#1")
   n=$(echo "$f" | grep -c "FINDING")
   echo "== $d : alarms=$n"
   echo "$f" | cut -c1-330
